@@ -161,7 +161,7 @@ func c16(r *rt.Run) {
 		os.WriteFile(filepath.Join(root, n), []byte(txt), 0o644)
 	}
 	// guard: the hook mirrors Loop; if Loop no longer contains those lines, say so (harness error, not a violation)
-	if src, err := os.ReadFile("/repo/interpreter/interpreter.go"); err == nil {
+	if src, err := os.ReadFile(repoDir() + "/interpreter/interpreter.go"); err == nil {
 		for _, part := range strings.Split(interpreter.VerifLoopSource, "|") {
 			if !strings.Contains(string(src), part) {
 				fmt.Fprintf(os.Stderr, "harness note: Loop no longer contains %q; VerifDefineLikeLoop may not mirror it\n", part)
